@@ -73,8 +73,9 @@ func (C11) Generate(r *core.Rand, tier string, idx int) *core.Scenario {
 	}
 	sc.Cfg["nopar"] = r.Intn(2)
 	// input classes that hit recorded defects: each in a small share of the runs
-	for _, k := range []string{"lit0", "openquote", "barelf", "emptytag", "starttls", "firstbad", "listutf8"} {
-		if r.P(1, 24) {
+	// input classes whose defects were repaired: each in half of the runs
+	for _, k := range []string{"lit0", "openquote", "barelf", "emptytag", "listutf8", "starttls", "firstbad"} {
+		if r.P(1, 2) {
 			sc.Cfg[k] = 1
 		}
 	}
@@ -1394,12 +1395,6 @@ func (g *c11G) lineEnd() {
 		e.Fail("continuation", "connection %s: continuation request after a line that announces no literal: %s", g.s.Label, c11Show(g.head))
 		return
 	case 3:
-		if it.tag == "" && it.status != "" && x.sc.C("emptytag") != 1 {
-			// recorded defect, tolerated unless the knob asks for strictness
-			e.St.Probes["emptytag_tolerated"]++
-			it.kind = 1
-			break
-		}
 		if it.tag == "" && it.status != "" {
 			e.FailSig("response-syntax", "status response with an empty tag", "connection %s: line %s answered by %q (neither a tag nor '*' in front of %s)",
 				g.s.Label, c11Show(g.head), " "+it.status+" "+it.text, it.status)
@@ -1456,7 +1451,7 @@ func (g *c11G) noExtra() {
 		case 2:
 			e.Fail("continuation", "connection %s: continuation request nothing asked for (line so far: %s)", g.s.Label, c11Show(g.head))
 		case 3:
-			if it.tag == "" && it.status != "" && g.x.sc.C("emptytag") == 1 {
+			if it.tag == "" && it.status != "" {
 				e.FailSig("response-syntax", "status response with an empty tag", "connection %s: unsolicited %q", g.s.Label, " "+it.status+" "+it.text)
 				return
 			}
